@@ -152,6 +152,8 @@ pub fn payload_decodable(m: &HandlerSpec, payload: &[u8]) -> bool {
         ["Pay"] => from_json::<Pay>(payload).is_ok(),
         ["Binary"] => from_json::<Binary>(payload).is_ok(),
         ["u64", "String", "Script"] => from_json::<(u64, String, rt::script::Script)>(payload).is_ok(),
+        ["u128", "i128", "Script"] => from_json::<(u128, i128, rt::script::Script)>(payload).is_ok(),
+        ["u128"] => from_json::<u128>(payload).is_ok(),
         _ => false,
     }
 }
@@ -475,6 +477,14 @@ pub fn check(rec: &RunRecord, reg: &Reg, which: &ReplyMonitors, cells: &mut Cell
                 match &dexp {
                     DataExp::NotApplicable => {}
                     DataExp::Value(v) => {
+                        // an optional mode hands out `Some` exactly when data was there (`Some(None)`
+                        // of an optional type and `None` both read as null)
+                        let some_wrong = matches!(r.data, DataMode::RawOpt | DataMode::Opt | DataMode::InstantiateOpt)
+                            && entered_mine
+                            && mine[0].1.get("data_some").map(|x| *x != json!(cond != "absent")).unwrap_or(false);
+                        if some_wrong {
+                            out.push(Finding::new("C09", "c09.value", op.idx, format!("{}: {} (mode {:?}, data {}) got data_some={} for data {}", d.cid(), m.id(), r.data, cond, mine[0].1["data_some"], mine[0].1["data"])));
+                        }
                         if enters.len() != 1 || !entered_mine || mine[0].1["data"] != *v {
                             out.push(Finding::new("C09", "c09.value", op.idx, format!("{}: {} (mode {:?}) must receive data {}; entered {:?} with {}; returned {}", d.cid(), m.id(), r.data, v, enters.iter().map(|e| e.0).collect::<Vec<_>>(), mine.first().map(|x| x.1["data"].clone()).unwrap_or(Value::Null), res)));
                         }
